@@ -19,6 +19,10 @@
    the exact inverse of the allocation (string: CString::from_raw; hmap: Box per node + its two
    strings); never released (proxies: "created once").
 
+   The caller installs a log callback when the process starts (redirectionio_log_init_with_callback): every message is a
+   fresh string that belongs to the callback, which releases it before returning (so each message is an allocation by the
+   library and a release by the caller inside one call; entry points that log: unparsable proxies, unreadable JSON, ...).
+
    The allocator contract (checked on recorded traces): a deallocation names a live allocation with
    exactly the layout it was allocated with; no double free; after the caller released everything
    it owns, nothing allocated during the sequence is still live (Quiesce).                     *)
